@@ -12,6 +12,7 @@ import (
 	"math/big"
 	"os"
 
+	"github.com/bronlabs/bron-crypto/pkg/base/nt/num"
 	"github.com/bronlabs/bron-crypto/pkg/commitments"
 )
 
@@ -43,6 +44,8 @@ type c18Ops struct {
 	commitFresh         func(m any, r *Rng) (any, any, error) // commitments.Commit
 	rerandFresh         func(cm any, r *Rng) (any, any, error) // commitments.ReRandomise
 	eqC                 func(a, b any) bool
+	// the package-level double-and-add helpers (…ScalarOpUnsignedNumeric) on all three components
+	nScalar func(t c18Triple, n *big.Int) (c18Triple, error)
 }
 
 func c18Cast[T any](xs []any) []T {
@@ -82,6 +85,25 @@ func c18Adapt[K commitments.HomomorphicCommitmentKey[K, M, W, C, S], M commitmen
 			return commitments.ReRandomise[K, M, W, C, S](k, cm.(C), r)
 		},
 		eqC: func(a, b any) bool { return a.(C).Equal(b.(C)) },
+		nScalar: func(t c18Triple, n *big.Int) (c18Triple, error) {
+			nn, err := num.N().FromBig(n)
+			if err != nil {
+				return c18Triple{}, err
+			}
+			cm, err := commitments.CommitmentScalarOpUnsignedNumeric[K, M, W, C, S](k, t.cm.(C), nn)
+			if err != nil {
+				return c18Triple{}, err
+			}
+			m, err := commitments.MessageScalarOpUnsignedNumeric[K, M, W, C, S](k, t.m.(M), nn)
+			if err != nil {
+				return c18Triple{}, err
+			}
+			w, err := commitments.WitnessScalarOpUnsignedNumeric[K, M, W, C, S](k, t.w.(W), nn)
+			if err != nil {
+				return c18Triple{}, err
+			}
+			return c18Triple{cm, m, w}, nil
+		},
 	}
 }
 
@@ -220,7 +242,24 @@ func (d *c18Dom) homSequence(c *Ctx, r *Rng, pool []c18Triple, steps int) {
 		var kind, extra string
 		var y c18Triple
 		var err error
-		switch r.IntN(6) {
+		switch r.IntN(7) {
+		case 6: // scalar multiple through the generic double-and-add helpers
+			n := big.NewInt(int64(r.IntN(13)))
+			if r.IntN(3) == 0 {
+				n = r.BigBelow(new(big.Int).Lsh(big.NewInt(1), 64))
+			}
+			kind, extra = "scalar", bigHex(n)
+			res := safely(func() string {
+				if y, err = d.ops.nScalar(x, n); err != nil {
+					return "err"
+				}
+				return "ok"
+			})
+			if res != "ok" {
+				fail("nscalar:"+res, err)
+				continue
+			}
+			c.Count(d.sch + ".hom.nscalar")
 		case 0, 1: // Op with one or more further operands
 			n := 1
 			if r.IntN(3) == 0 {
